@@ -1196,6 +1196,21 @@ def np_mean(a, axis=None, dtype=None, out=None, keepdims=False, **kw):
     return s * Fraction(1, n)
 
 
+def np_average(a, axis=None, weights=None, **kw):
+    if weights is None:
+        return np_mean(a, axis=axis)
+    a = to_obj(asarray(a))
+    w = to_obj(asarray(weights))
+    if axis is None:
+        return np_sum(a * w.reshape(a.shape)) / np_sum(w)
+    axis = int(axis) % a.ndim
+    shape = [1] * a.ndim
+    shape[axis] = a.shape[axis]
+    if w.ndim != 1 or w.shape[0] != a.shape[axis]:
+        raise ValueError("average: weights must be 1-D with the length of the averaged axis")
+    return np_sum(a * w.reshape(shape), axis=axis) / np_sum(w)
+
+
 def np_prod(a, axis=None, dtype=None, **kw):
     a = asarray(a)
     if a.dtype != object:
@@ -1564,7 +1579,10 @@ class AbstractSparse:
     def transpose(self):
         return self.T
 
-    def toarray(self):
+    def toarray(self, order=None, out=None):
+        if out is not None:
+            array_setitem(out, Ellipsis, self.dense.reshape(out.shape))
+            return out
         return self.dense.copy()
 
     todense = toarray
@@ -1943,7 +1961,7 @@ def externals(it):
         float_power=np_power, maximum=maximum, minimum=minimum, isclose=isclose, allclose=allclose, array_equal=array_equal,
         where=where, max=_reduce_cmp("max"), amax=_reduce_cmp("max"), min=_reduce_cmp("min"), amin=_reduce_cmp("min"),
         argmax=_argreduce("argmax"), argmin=_argreduce("argmin"), unique=unique, sort=sort, argsort=argsort,
-        round=np_round, around=np_round, sum=np_sum, mean=np_mean, average=np_mean, prod=np_prod, product=np_prod,
+        round=np_round, around=np_round, sum=np_sum, mean=np_mean, average=np_average, prod=np_prod, product=np_prod,
         isnan=isnan, isfinite=isfinite, isinf=isinf, deg2rad=deg2rad, rad2deg=rad2deg, radians=deg2rad, degrees=rad2deg,
         any=_np_any, all=_np_all, floor=_floor, ceil=_ceil, vectorize=_vectorize,
         isscalar=lambda x: isinstance(x, (int, Fraction, Poly, np.integer, np.bool_, bool, str)),
